@@ -108,6 +108,33 @@ impl<'a> ArrayView<'a> {
             data.len(),
             HEADER_SIZE
         );
+        // everything the accessors index is checked once, here: the element type byte, the null bitmap,
+        // the element area (fixed-width types) or the offset table and the total size (variable-width types)
+        let elem_type = DataType::try_from(data[4])
+            .map_err(|e| eyre::eyre!("corrupted array: invalid type byte: {}", e))?;
+        let len = u16::from_le_bytes([data[6], data[7]]) as usize;
+        let body_start = HEADER_SIZE + len.div_ceil(8);
+        let body_len = match elem_type.fixed_size() {
+            Some(size) => len * size,
+            None => len * 4,
+        };
+        ensure!(
+            body_start + body_len <= data.len(),
+            "corrupted array: {} elements of {:?} need {} bytes, the buffer has {}",
+            len,
+            elem_type,
+            body_start + body_len,
+            data.len()
+        );
+        if elem_type.fixed_size().is_none() {
+            let total = u32::from_le_bytes([data[0], data[1], data[2], data[3]]) as usize;
+            ensure!(
+                body_start + body_len <= total && total <= data.len(),
+                "corrupted array: total size {} does not fit the buffer of {} bytes",
+                total,
+                data.len()
+            );
+        }
         Ok(Self { data })
     }
 
@@ -116,7 +143,7 @@ impl<'a> ArrayView<'a> {
     }
 
     pub fn elem_type(&self) -> DataType {
-        DataType::try_from(self.data[4]).expect("corrupted array: invalid type byte")
+        DataType::try_from(self.data[4]).expect("type byte validated in ArrayView::new")
     }
 
     #[allow(dead_code)]
@@ -187,6 +214,14 @@ impl<'a> ArrayView<'a> {
         } else {
             self.total_size() as usize - data_start
         };
+        ensure!(
+            start <= end && data_start + end <= self.data.len(),
+            "corrupted array: element {} spans {}..{} of {} bytes",
+            idx,
+            data_start + start,
+            data_start + end,
+            self.data.len()
+        );
 
         Ok((data_start + start, data_start + end))
     }
